@@ -25,24 +25,33 @@ def _amt_plus_one(r, k, recs):
         return [r]
 
 
+def _single(recs, run):
+    """one registration, shown as claimable exactly once"""
+    return sum(1 for x in recs if x["run"] == run and x["ev"] == "reg") == 1 and \
+        sum(1 for x in recs if x["run"] == run and x["ev"] == "event" and x.get("kind") == "PaymentClaimable") == 1
+
+
 def _deadline_plus_one(r, k, recs):
     # a run in which the node failed the set back on its own when the advertised deadline was reached
-    if r["ev"] == "event" and r.get("kind") == "PaymentClaimable":
+    if r["ev"] == "event" and r.get("kind") == "PaymentClaimable" and _single(recs, r["run"]):
         later = [x for x in recs[k + 1:] if x["run"] == r["run"]]
         for j, x in enumerate(later):
-            if x["ev"] in ("claim", "failback") or (x["ev"] == "event" and x.get("kind") == "PaymentClaimable"):
+            if x["ev"] in ("claim", "failback"):
                 return None
             if x["ev"] == "block" and x["height"] == r["deadline"]:
-                if any(y["ev"] == "msg" and y["kind"] == "update_fail_htlc" and y["from"] == r["node"] for y in later[j:]):
+                if any(y["ev"] == "msg" and y["kind"] == "update_fail_htlc" and y["from"] == r["node"] for y in later[j:j + 6]):
                     r["deadline"] += 1
                     return [r]
                 return None
 
 
 def _fulfil_as_fail(r, k, recs):
-    if r["ev"] == "msg" and r["kind"] == "update_fulfill_htlc" and r["to"] == 0:
-        n = sum(1 for x in recs if x["run"] == r["run"] and x["ev"] == "msg" and x["kind"] == "update_fulfill_htlc" and x["to"] == 0)
-        if n >= 2:
+    # a set of >= 2 parts claimed strictly below its deadline: one part failed instead
+    if r["ev"] == "msg" and r["kind"] == "update_fulfill_htlc" and _single(recs, r["run"]):
+        cl = [x for x in recs if x["run"] == r["run"] and x["ev"] == "event" and x.get("kind") == "PaymentClaimable"][0]
+        claims = [x for x in recs if x["run"] == r["run"] and x["ev"] == "claim"]
+        n = sum(1 for x in recs if x["run"] == r["run"] and x["ev"] == "msg" and x["kind"] == "update_fulfill_htlc" and x["from"] == cl["node"])
+        if r["from"] == cl["node"] and n >= 2 and len(claims) == 1 and claims[0]["height"] < cl["deadline"]:
             r["kind"] = "update_fail_htlc"
             return [r]
 
@@ -68,12 +77,13 @@ def _claimed_minus_one(r, k, recs):
 
 
 def _fail_dropped(r, k, recs):
-    # a part that was failed back without being shown: pretend it never was
-    if r["ev"] == "msg" and r["kind"] == "update_fail_htlc" and r["to"] == 0 \
-            and not _run_has(recs, r["run"], lambda x: x["ev"] == "event" and x.get("kind") == "PaymentClaimable") \
-            and sum(1 for x in recs if x["run"] == r["run"] and x["ev"] == "send") == 1 \
-            and _run_has(recs, r["run"], lambda x: x["ev"] == "send" and x["sreg"] == 0):
-        return []
+    # a part that was failed back without being shown: pretend the recipient never failed it
+    if r["ev"] == "msg" and r["kind"] == "update_fail_htlc" \
+            and not _run_has(recs, r["run"], lambda x: x["ev"] == "event" and x.get("kind") == "PaymentClaimable"):
+        sends = [x for x in recs if x["run"] == r["run"] and x["ev"] == "send"]
+        if len(sends) == 1 and sends[0]["res"] == "ok" and sends[0]["sreg"] == 0 and not sends[0]["keysend"] and sends[0]["dst"] == r["from"] \
+                and _run_has(recs, r["run"], lambda x: x["ev"] == "quiet"):
+            return []
 
 
 def _underpaid(r, k, recs):
